@@ -12,8 +12,9 @@ from lib import common, play, stories
 LEVEL = "proof"
 HARNESS_FEATURES = [[], ["stream"]]
 THEOREM_MODULES = ["Proofs.C15"]
-REQUIRED_THEOREMS = ["Ink.C15.parse_total", "Ink.C15.loadStory_no_panic", "Ink.C15.loadState_no_panic",
-                     "Ink.C15.failed_load_then_reset_is_fresh"]
+REQUIRED_THEOREMS = ["Ink.C15.parse_total", "Ink.C15.loadStory_no_panic", "Ink.C15.loadStory_err_kind",
+                     "Ink.C15.loadState_no_panic", "Ink.C15.save_helpers_no_panic", "Ink.C15.loadState_touches_only_state",
+                     "Ink.C15.failed_load_then_reset_is_fresh", "Ink.C15.failed_load_then_reset_eq_blank"]
 RULE = ("a case = one mutated document: structural mutations of the JSON value (delete / retype / duplicate / swap a "
         "node, numeric extremes, key renames), truncation (at every byte for small documents), nesting bombs, token "
         "damage and random bytes, applied to valid story documents (given to Story::new under both loaders) and to "
@@ -190,6 +191,8 @@ def one_save(job):
     for feats, name in (([], "default"), (["stream"], "stream")):
         s = play.RtSession(features=feats)
         end = play.walk(s, random.Random(history_seed), story_path, seed=5, max_turns=2, observe=False)
+        if history_seed % 3 == 0:
+            s.send(["switch", "elsewhere"])      # the receiving story has a second flow of its own
         r = s.send(["loadtext", mutated])
         c = classify(r)
         res["classes"][name] = c
@@ -308,12 +311,37 @@ def run(ctx):
         hs = ctx.seed * 17 + si
         sess = play.RtSession()
         play.walk(sess, random.Random(hs), s["path"], seed=5, max_turns=2, observe=False)
+        if si % 2 == 0:
+            # a multi-flow save: two more flows, each standing somewhere
+            knots = s["meta"].get("knots") or []
+            for fl in ("side", "other"):
+                sess.send(["switch", fl])
+                if knots:
+                    sess.send(["path", knots[(si + len(fl)) % len(knots)], False, []])
+                    sess.send(["cont"])
         sv = sess.send(["savejson"])
         sess.close()
         if sv.get("r") != "ok":
             continue
         stext = json.dumps(sv["v"], ensure_ascii=False, separators=(",", ":"))
         sdoc = sv["v"]
+        targeted = []
+        for name in ("nope", "", "DEFAULT_FLOW ", 5, None, ["side"], {"a": 1}):
+            d = copy.deepcopy(sdoc)
+            d["currentFlowName"] = name
+            targeted.append(json.dumps(d, ensure_ascii=False, separators=(",", ":")))
+        for key in ("flows", "currentFlowName", "variablesState", "evalStack", "visitCounts", "turnIndices", "turnIdx",
+                    "storySeed", "previousRandom", "inkSaveVersion", "inkFormatVersion"):
+            d = copy.deepcopy(sdoc)
+            d.pop(key, None)
+            targeted.append(json.dumps(d, ensure_ascii=False, separators=(",", ":")))
+        if isinstance(sdoc.get("flows"), dict) and len(sdoc["flows"]) > 1:
+            for fname in list(sdoc["flows"]):
+                d = copy.deepcopy(sdoc)
+                del d["flows"][fname]
+                targeted.append(json.dumps(d, ensure_ascii=False, separators=(",", ":")))
+        for m in targeted:
+            save_jobs.append((s["path"], hs, stext, m, len(save_jobs), ctx.scratch))
         for k in range(25 if quick else 300):
             if rng.random() < 0.6:
                 d = sdoc
